@@ -78,7 +78,17 @@ func (d *redisDatum) ToString() (value string, success bool) {
 	}
 }
 
+// maxArrayDepth bounds the nesting of arrays: parseRedisData recurses once per level
+const maxArrayDepth = 32
+
 func parseRedisData(scanner *bufio.Scanner) (redisDatum, error) {
+	return parseRedisDataDepth(scanner, 0)
+}
+
+func parseRedisDataDepth(scanner *bufio.Scanner, depth int) (redisDatum, error) {
+	if depth > maxArrayDepth {
+		return redisDatum{}, fmt.Errorf("Arrays nested deeper than %d", maxArrayDepth)
+	}
 	success := scanner.Scan()
 	if !success {
 		err := scanner.Err()
@@ -99,7 +109,7 @@ func parseRedisData(scanner *bufio.Scanner) (redisDatum, error) {
 		}
 		var items []interface{}
 		for i := uint64(0); i < n; i++ {
-			item, err := parseRedisData(scanner)
+			item, err := parseRedisDataDepth(scanner, depth+1)
 			if err != nil {
 				return redisDatum{}, err
 			}
